@@ -144,7 +144,13 @@ def replay_history(which, hist, acc):
             n = cache_maxsize(which)
             for _ in range(n):
                 _flood_counter[0] += 1
-                fn(filler % _flood_counter[0])
+                try:
+                    fn(filler % _flood_counter[0])
+                except Exception as e:  # noqa: BLE001 - total: a fresh well-formed string must parse whatever was parsed before
+                    acc["viol"].append((f"{which} parser, history {list(hist[:step + 1])}: while {_flood_counter[0]} distinct strings had been parsed in this process, "
+                                        f"parsing the fresh well-formed string {filler % _flood_counter[0]!r} raised {type(e).__name__}: {str(e)[:120]}",
+                                        {"which": which, "history": [list(x) for x in hist[:step + 1]]}))
+                    return
     acc["n"] += 1
 
 
